@@ -89,7 +89,7 @@ Proof.
   rewrite xtag_emit_prim, xkids_emit_prim, xattrs_emit_prim, tag_kind_tag.
   rewrite prim_findall_input, prim_findall_p, prim_find_vcount.
   rewrite omap_map_id by (intros; apply read_emit_input).
-  rewrite (omap_map_id emit_p xtext) by reflexivity.
+  rewrite map_map. rewrite (map_ext (fun t => text_or_nil (emit_p t)) (fun t => t)) by reflexivity. rewrite map_id.
   rewrite xattr_material.
   change (attr a_count ((a_count, AInt (p_count p)) :: opt_attr a_material (p_material p))) with (Some (AInt (p_count p))).
   destruct p as [k m n ins [v|] ps]; reflexivity.
